@@ -209,47 +209,3 @@ pub fn check_svg(svg: &str, qr: &QRCode, spec: &Spec) -> Result<Counts, V> {
     Ok(counts)
 }
 
-/// C16's statement, checked on one terminal string.
-pub fn check_terminal(text: &str, qr: &QRCode) -> Result<u64, V> {
-    let n = qr.size;
-    let lines: Vec<&str> = text.split('\n').collect();
-    let want_lines = (n + 1) / 2 + 1;
-    if lines.len() != want_lines {
-        return bad("line-count", format!("{} lines, expected (size+1)/2+1 = {want_lines} for size {n}", lines.len()));
-    }
-    // half-rows: index 0 is the filler above the border, 1 the top border, 2..n+2 modules, n+2 bottom border
-    let mut grid: Vec<Vec<bool>> = Vec::with_capacity(2 * want_lines); // true = dark
-    for (li, l) in lines.iter().enumerate() {
-        let chars: Vec<char> = l.chars().collect();
-        if chars.len() != n + 2 {
-            return bad("line-width", format!("line {li} has {} characters, expected size+2 = {}", chars.len(), n + 2));
-        }
-        let mut top = Vec::with_capacity(n + 2);
-        let mut bot = Vec::with_capacity(n + 2);
-        for (ci, ch) in chars.iter().enumerate() {
-            let (t, b) = match ch {
-                ' ' => (true, true),
-                '\u{2588}' => (false, false),
-                '\u{2580}' => (false, true),
-                '\u{2584}' => (true, false),
-                other => return bad("alphabet", format!("character {other:?} (U+{:04X}) at line {li} column {ci}", *other as u32)),
-            };
-            top.push(t);
-            bot.push(b);
-        }
-        grid.push(top);
-        grid.push(bot);
-    }
-    let mut compared = 0u64;
-    for hr in 1..n + 3 {
-        for c in 0..n + 2 {
-            let want_dark = if hr == 1 || hr == n + 2 || c == 0 || c == n + 1 { false } else { qr.data[(hr - 2) * n + (c - 1)].value() };
-            if grid[hr][c] != want_dark {
-                let what = if hr == 1 || hr == n + 2 || c == 0 || c == n + 1 { "border cell".to_string() } else { format!("module (row {}, column {})", hr - 2, c - 1) };
-                return bad("cell-mismatch", format!("{what} renders as {}, expected {}", if grid[hr][c] { "dark" } else { "light" }, if want_dark { "dark" } else { "light" }));
-            }
-            compared += 1;
-        }
-    }
-    Ok(compared)
-}
